@@ -127,8 +127,13 @@ async def _run(loop, sc):
             log.append(("sched", when, jid, 0))
         for k in range(sc["n_idle"]):
             def mk(k):
+                calls = [0]
+
                 async def idle():
                     log.append(("idle", k, running[0], ms(fake_now())))
+                    calls[0] += 1
+                    if sc.get("idle_raises") and calls[0] <= 3:
+                        raise RuntimeError("idle handler fails")       # a failing idle handler is nobody else's problem
                     await asyncio.sleep(0.005)
                 return idle
             d.subscribe_idle(mk(k))
@@ -157,7 +162,16 @@ async def _run(loop, sc):
 
 
 def run_scenario(sc):
-    return vloop.run_virtual(_run, sc)
+    # tasks whose exception nobody retrieves (a failing idle handler) are reported by asyncio when they are collected
+    alog = logging.getLogger("asyncio")
+    old = alog.level
+    alog.setLevel(logging.CRITICAL + 1)
+    try:
+        return vloop.run_virtual(_run, sc)
+    finally:
+        import gc
+        gc.collect()
+        alog.setLevel(old)
 
 
 # ------------------------------------------------------------------------------------------------
@@ -306,8 +320,12 @@ def gen_contention(rnd):
             arr.append([0, -10 + k, eid, rnd.choice([5, 40, 120])])
         sources.append(arr)
     jobs = [[-20 + k, 200 + k, rnd.choice([5, 40, 200])] for k in range(rnd.randint(2, 4))]
+    # events and jobs that become due only after the idle handlers had their turns (some of which fail)
+    eid += 1
+    sources[0].append([300, 300, eid, 5])
+    jobs.append([320, 200 + len(jobs), 5])
     return {"sources": sources, "jobs": jobs, "bev": {}, "raise": {}, "n_idle": rnd.choice([1, 2, 3]),
-            "mc": rnd.choice([1, 1, 2]), "end": 1500}
+            "mc": rnd.choice([1, 1, 2]), "end": 1500, "idle_raises": eid % 2 == 0}
 
 
 def gen_scenario(rnd, model=False):
